@@ -509,11 +509,17 @@ class MarkdownRenderer(BaseRenderer):
                 prefixed = following_line_prefix + line
             yield prefixed if not prefixed.isspace() else ""
 
+    # a pipe within a cell's content must be written escaped, or it would end the cell
+    unescaped_pipe_pattern = re.compile(r"(?<!\\)\|")
+
     def table_row_to_text(self, row) -> Sequence[str]:
         """
         Renders each table cell on a table row to text. No word wrapping.
         """
-        return [next(self.span_to_lines(col.children, max_line_length=None), "") for col in row.children]
+        return [
+            self.unescaped_pipe_pattern.sub(r"\\|", next(self.span_to_lines(col.children, max_line_length=None), ""))
+            for col in row.children
+        ]
 
     @classmethod
     def calculate_table_column_widths(cls, col_text) -> Sequence[int]:
